@@ -46,6 +46,32 @@ STRENGTHENED = {
     'C17-4': 'injected faults raising KeyboardInterrupt / ThreadTerminationError instead of an OSError',
     'C19-3': 'console logging (-vv) switched on: a handler with the CLI formatter ahead of the record handlers',
     'C19-4': 'one log statement used first with a harmless value, then with a MAC',
+    # fifth and sixth change per property
+    'C01-5': 'SystemExit raised on the executor thread itself (run_if predicate; plug constructor in C08): behaviours added to the program model before the first run of the check on this change',
+    'C04-6': 'a program with a body that cannot be killed and cancel_timeout_s = 0',
+    'C05-6': 'caught by the C04 check after slow bodies got phase diagnosers and the predicate "a killed invocation is not diagnosed" was added',
+    'C06-5': 'the phase ends by SKIP / REPEAT at its limit / STOP / FAIL_AND_CONTINUE after its assignments (added before the first run of the check on this change)',
+    'C06-6': 'a second assignment whose raw value equals what the first one recorded under a non-idempotent transform (added before the first run)',
+    'C07-5': 'mixed declarations: one textual limit, inconsistent pairs among the numeric ones',
+    'C08-5': 'a plug whose instance binds tearDown while its class keeps BasePlug\'s',
+    'C09-6': 'a mutable configuration value changed in place after the run',
+    'C10-6': 'an attachment of 200 003 bytes',
+    'C11-5': 'the start trigger used in every other run only; declared plug types compared',
+    'C12-6': 'a teardown phase that raises after the time-out',
+    'C13-5': 'the ids of the filesync command set as unknown ADB commands (filesync_service imported, as every real device does)',
+    'C14-6': 'a device acknowledging each WRTE after 0.6 x the time-out in logical time (the clock openhtf.util.timeouts reads is advanced by the device)',
+    'C16-5': 'per-cent signs in the device\'s FAIL / unknown-header text',
+    'C16-6': 'an image source whose read(n) hands back fewer than n characters',
+    'C17-5': 'test metadata keys named like record fields used by the file name pattern',
+    'C19-5': 'a slow station handler ahead of the record handlers, creation time noted per message and compared exactly',
+    'C19-6': 'whole runs in child processes started with no -v / -v / -vv / -vvv',
+}
+# caught at once, but by the check of a neighbouring property
+NEIGHBOUR = {
+    'C03-5': 'caught by the C12 check (time-out with profiling on, body that cannot be killed)',
+    'C03-6': 'caught by the C09 check (post-return state: still registered for SIGINT)',
+    'C08-6': 'caught by the C04 check (real SIGINT schedules; it re-introduces the defect fixed as F17)',
+    'C20-5': 'caught by the C09 check (per-run configuration marker in the metadata snapshot)',
 }
 rows = []
 root = os.path.join(HERE, 'seeded')
@@ -80,7 +106,7 @@ for d, m, files in rows:
       m['needs_to_manifest'].replace('|', '/'),
       'missed' if d in STRENGTHENED else 'caught',
       ', '.join('`%s`' % x for x in m['check']['mechanisms'][:3]),
-      STRENGTHENED.get(d, '')))
+      STRENGTHENED.get(d, NEIGHBOUR.get(d, ''))))
 n = len(rows)
 miss = sum(1 for d, _, _ in rows if d in STRENGTHENED)
 out += ['', '%d changes kept; %d were caught by the check as it stood, %d only after the additions above; '
